@@ -34,7 +34,11 @@ KINDS_10 = ["IDENTIFIER", "NUMBER", "LEFT_PAREN", "RIGHT_PAREN", "COMMA", "MINUS
 # ------------------------------------------------------------------ running the real code
 
 
-def run_text(text, add_intercept):
+METHOD_LEVEL = {"expression": 0, "assignment": 0, "tilde": 1, "random_effect": 2, "comparison": 3, "addition": 4, "multiplication": 5,
+                "interaction": 6, "multiple_interaction": 7, "unary": 8, "call": 9, "primary": 10}
+
+
+def run_text(text, add_intercept, profile=False):
     """Scanner -> Parser on text.  Returns dict(scan_ok, kinds, lexemes, ok, tree, cur, exc)."""
     from formulae.scanner import Scanner
     from formulae.parser import Parser
@@ -49,9 +53,33 @@ def run_text(text, add_intercept):
     out["kinds"] = [t.kind for t in toks[:-1]]
     out["lex"] = [[t.kind, t.lexeme, repr(t.literal)] for t in toks]
     out["eof_last"] = toks[-1].kind == "EOF"
+    calls = []
+    stack = []
+
+    def prof(frame, event, arg):
+        code = frame.f_code
+        if code.co_filename.endswith("parser.py") and code.co_name in METHOD_LEVEL:
+            slf = frame.f_locals.get("self")
+            if event == "call":
+                stack.append((code.co_name, slf.current))
+            elif event == "return" and stack:
+                name, cin = stack.pop()
+                # a frame that is unwinding because of an exception also produces 'return' (with arg None)
+                calls.append([METHOD_LEVEL[name], cin, arg is not None, slf.current])
+
     try:
         p = Parser(toks)
-        ast = p.parse()
+        if profile:
+            import sys as _sys
+
+            _sys.setprofile(prof)
+            try:
+                ast = p.parse()
+            finally:
+                _sys.setprofile(None)
+            out["calls"] = calls
+        else:
+            ast = p.parse()
     except RecursionError:
         out["exc"] = "RecursionError"
         return out
@@ -200,7 +228,7 @@ def _trace_event(args):
         kinds, want = syntax.tokens_of(tree, 0.25, rng, brace=True)
     lexs = syntax.pick_lexemes(kinds, rng)
     text = syntax.render(lexs, 2, rng)
-    r = run_text(text, True)
+    r = run_text(text, True, profile=(idx % 5 == 0))
     md_ok, md = run_model(text)
     ev = None
     base = {"text": text, "kinds": kinds}
@@ -223,7 +251,7 @@ def _trace_event(args):
                     want_i = _graft_intercept(want)
             else:
                 want_i = []
-            ev = {"id": idx, "toks": got, "ok": r["ok"], "tree": r["tree"] if r["ok"] else [], "cur": r["cur"], "md_ok": bool(md_ok), "want": want_i}
+            ev = {"id": idx, "toks": got, "ok": r["ok"], "tree": r["tree"] if r["ok"] else [], "cur": r["cur"], "md_ok": bool(md_ok), "want": want_i, "calls": r.get("calls", [])[:400]}
     # whitespace / parenthesis invariance at the model level (only for unmutated sentences)
     if not mutated and r["scan_ok"]:
         t2 = syntax.render(lexs, 1, rng)
@@ -380,7 +408,10 @@ def traces(rep, n, depth, seed):
         for v in res.fv:
             if v[1] == "bad":
                 e = evmap[v[2]]
-                rep.violation({"clause": v[3], "site": "Parser.parse", "judge": "Grammar_Trace"}, {"text": by_id[v[2]], "event": e})
+                rep.violation({"clause": v[3], "site": "Parser.parse", "judge": "Grammar_Trace"}, {"text": by_id[v[2]], "event": {k: e[k] for k in e if k != "calls"}})
+            elif v[1] == "drift":
+                rep.cov["impl_drift"] += 1
+        rep.count("parser_method_calls_checked_against_spec", sum(len(e.get("calls", [])) for e in events))
         for e in events[:2]:
             rep.sample({"kind": "C->S event", "text": by_id[e["id"]], "event": e})
     finally:
